@@ -341,7 +341,7 @@ InitKids(fm) ==
 MdatFirst(fm) == "mdatFirst" \in DOMAIN fm /\ fm.mdatFirst
 FragKids(fm, pl) ==
   Flat([i \in 1..Len(fm.frags) |->
-     LET moof == Cont(MOOF, <<>>, <<Leaf(EncMfhd([version |-> 0, flags |-> 0, sequence_number |-> FromInt(i)]))>>
+     LET moof == Cont(MOOF, <<>>, <<Leaf(EncMfhd([version |-> 0, flags |-> 0, sequence_number |-> FromInt(IF "seq" \in DOMAIN fm THEN fm.seq[i] ELSE i)]))>>
                          \o [j \in 1..Len(fm.frags[i]) |-> TrafNode(fm.frags[i][j], pl[i][j])])
          mdat == Leaf(Box(MDAT, Flat([j \in 1..Len(fm.frags[i]) |-> RunBytes(fm, i, j)])))
      IN IF MdatFirst(fm) THEN <<mdat, moof>> ELSE <<moof, mdat>>])
@@ -400,7 +400,8 @@ ItemNodeL(it, lg) ==
 ItemNode(it) == ItemNodeL(it, {})
 MetaNode(md) ==
   LET lg == LargeOf(md)
-      hd == Leaf(EncHdlr([version |-> 0, flags |-> 0, handler_type |-> md.handler, name |-> <<>>]))
+      \* md.hname (optional): the handler's name, any bytes (the tags do not depend on it)
+      hd == Leaf(EncHdlr([version |-> 0, flags |-> 0, handler_type |-> md.handler, name |-> IF "hname" \in DOMAIN md THEN md.hname ELSE <<>>]))
       il == WithLarge(Cont(ILST, <<>>, [i \in 1..Len(md.items) |-> ItemNodeL(md.items[i], lg)]), "ilst" \in lg)
   IN WithLarge(Cont(META, IF md.fullbox THEN Zeros(4) ELSE <<>>, IF md.present = "meta" THEN <<hd>> ELSE <<hd, il>>), "meta" \in lg)
 UdtaNodes(md) ==
